@@ -312,6 +312,7 @@ class Verdict(object):
                          if f.get('property') == pid and f.get('status', 'open') == 'open']
         self.divergences = []
         self.notes = []
+        self.other_clauses = {}
 
     def _match(self, sig):
         for f in self.findings:
